@@ -353,7 +353,8 @@ namespace {
             {
                 Op op;
                 op.v[0] = (int64_t) r.below((uint64_t) nw + 1);    // party nw = signaller
-                op.v[1] = op.v[0] == nw ? 3 : (r.chance(3, 4) ? 1 : 2);
+                // (signaller: signal, or - not with a huge window - widen the window: set_max_difference + signal_all)
+                op.v[1] = op.v[0] == nw ? (!huge && r.chance(1, 5) ? 4 : 3) : (r.chance(3, 4) ? 1 : 2);
                 op.v[2] = r.range(0, 12);
                 // with a huge window small upper limits never block: half of the waits ask for max_difference + k
                 if (huge && op.v[1] != 3 && maxdiff < std::numeric_limits<int64_t>::max() && r.chance(1, 2)) op.v[2] += maxdiff;
@@ -370,7 +371,9 @@ namespace {
         static pika::sliding_semaphore sem(maxdiff, 0);
         static int64_t lower_inv = 0;    // max lower limit whose signal() was invoked
         static int64_t lower_ret = 0;    // max lower limit whose signal() has returned
-        static int64_t md = maxdiff;
+        // the window may be widened during the run: md_hi is raised before set_max_difference is called, md_lo after
+        // the following signal_all has returned (a waiter may rely on md_hi, must be served according to md_lo)
+        static int64_t md_hi = maxdiff, md_lo = maxdiff;
         static int blocked = 0;
         static int64_t min_blocked_upper = 0;
         static std::vector<int64_t> waiting_upper;
@@ -393,30 +396,44 @@ namespace {
                     blocked--;
                     waiting_upper[(size_t) me] = -1;
                     // may only return once a signalled lower bound is within distance
-                    VH_CHECK(v - md <= lower_inv, "C08.sliding.early",
+                    VH_CHECK(v - md_hi <= lower_inv, "C08.sliding.early",
                         "wait(%lld) returned with max_difference %lld while the largest signalled "
                         "lower limit is %lld",
-                        (long long) v, (long long) md, (long long) lower_inv);
+                        (long long) v, (long long) md_hi, (long long) lower_inv);
                     probe("sliding.wait_returned");
                 }
                 else if (op.v[1] == 2)
                 {
+                    int64_t const md_lo_before = md_lo, lower_ret_before = lower_ret;
                     bool ok = sem.try_wait(v);
                     if (ok)
-                        VH_CHECK(v - md <= lower_inv, "C08.sliding.early",
+                        VH_CHECK(v - md_hi <= lower_inv, "C08.sliding.early",
                             "try_wait(%lld) true with max_difference %lld, lower limit %lld",
-                            (long long) v, (long long) md, (long long) lower_inv);
+                            (long long) v, (long long) md_hi, (long long) lower_inv);
                     else
-                        VH_CHECK(v - md > lower_ret, "C08.sliding.try_false",
+                        VH_CHECK(v - md_lo_before > lower_ret_before, "C08.sliding.try_false",
                             "try_wait(%lld) false although signal(%lld) had returned (max_difference "
                             "%lld)",
-                            (long long) v, (long long) lower_ret, (long long) md);
+                            (long long) v, (long long) lower_ret_before, (long long) md_lo_before);
                 }
                 else if (op.v[1] == 3)
                 {
                     if (v > lower_inv) lower_inv = v;
                     sem.signal(v);
                     if (v > lower_ret) lower_ret = v;
+                }
+                else if (op.v[1] == 4)
+                {
+                    // only this party and main (while this party is blocked or finished: never now) signal: the lower
+                    // limit known here is exact, set_max_difference is given it back unchanged
+                    int64_t const wider = md_hi + 1 + (v & 3);
+                    md_hi = wider;
+                    sem.set_max_difference(wider, lower_ret);
+                    int64_t const reported = sem.signal_all();    // waiters re-evaluate against the wider window
+                    VH_CHECK(reported == lower_ret, "C08.sliding.lower_limit", "signal_all() reports lower limit %lld, it is %lld",
+                        (long long) reported, (long long) lower_ret);
+                    md_lo = wider;
+                    probe("sliding.window_widened");
                 }
             }
         });
@@ -432,10 +449,10 @@ namespace {
                 for (int64_t u : waiting_upper)
                 {
                     if (u < 0) continue;
-                    if (u - md <= lower_ret)
+                    if (u - md_lo <= lower_ret)
                         someone_due = true;
-                    else if (need < 0 || u - md < need)
-                        need = u - md;
+                    else if (need < 0 || u - md_lo < need)
+                        need = u - md_lo;
                 }
                 if (!someone_due && need >= 0 && lower_inv == lower_ret)
                 {
